@@ -54,27 +54,32 @@ Lemma enc_msg_length : forall ch eof data,
    length (match data with [] => [] | _ => 26%N :: varint (N.of_nat (length data)) ++ data end)).
 Proof. intros. unfold enc_msg. rewrite !app_length. reflexivity. Qed.
 
+Lemma varint_byte_len : forall v, (v < 256)%N -> length (varint v) <= 2.
+Proof.
+  intros v H. change 2 with (length (varint 255)). apply varint_mono. lia.
+Qed.
+
 Lemma enc_msg_ref_length : forall maxp, 0 < maxp ->
-  length (enc_msg 1 true (repeat 0%N maxp)) = 5 + length (varint (N.of_nat maxp)) + maxp.
+  length (enc_msg 255 true (repeat 0%N maxp)) = 6 + length (varint (N.of_nat maxp)) + maxp.
 Proof.
   intros maxp H. rewrite enc_msg_length.
-  change (1 =? 0)%Z with false. cbv iota.
-  change (u64_of_int32 1) with 1%N.
-  rewrite (varint_small 1) by lia.
+  change (255 =? 0)%Z with false. cbv iota.
+  change (u64_of_int32 255) with 255%N.
+  change (varint 255) with [255%N; 1%N].
   destruct maxp as [|k]; [lia|].
   cbn [repeat]. change (0%N :: repeat 0%N k) with (repeat 0%N (S k)).
   cbn [length]. rewrite app_length. rewrite repeat_length. cbn [length]. lia.
 Qed.
 
 Lemma enc_msg_len_le : forall maxp id eof data,
-  0 < maxp -> (id < 128)%N -> length data <= maxp ->
-  length (enc_msg (Z.of_N id) eof data) <= length (enc_msg 1 true (repeat 0%N maxp)).
+  0 < maxp -> (id < 256)%N -> length data <= maxp ->
+  length (enc_msg (Z.of_N id) eof data) <= length (enc_msg 255 true (repeat 0%N maxp)).
 Proof.
   intros maxp id eof data Hp Hid Hd.
   rewrite enc_msg_ref_length by assumption. rewrite enc_msg_length.
-  assert (H1 : length (if (Z.of_N id =? 0)%Z then [] else 8%N :: varint (u64_of_int32 (Z.of_N id))) <= 2).
+  assert (H1 : length (if (Z.of_N id =? 0)%Z then [] else 8%N :: varint (u64_of_int32 (Z.of_N id))) <= 3).
   { destruct (Z.of_N id =? 0)%Z; cbn [length]; [lia|].
-    rewrite u64_of_int32_of_N. rewrite varint_small by assumption. cbn [length]. lia. }
+    rewrite u64_of_int32_of_N. pose proof (varint_byte_len id Hid). lia. }
   assert (H2 : length (if eof then [16%N; 1%N] else []) <= 2).
   { destruct eof; cbn [length]; lia. }
   assert (H3 : length (match data with [] => [] | _ => 26%N :: varint (N.of_nat (length data)) ++ data end)
@@ -87,15 +92,16 @@ Proof.
   lia.
 Qed.
 
+(** every byte-sized channel id fits (the limit is computed with ChannelID 0xff) *)
 Lemma packet_fits : forall maxp id eof data,
-  0 < maxp -> (id < 128)%N -> length data <= maxp ->
+  0 < maxp -> (id < 256)%N -> length data <= maxp ->
   length (enc_packet (PktMsg (Z.of_N id) eof data)) <= max_packet_msg_size maxp.
 Proof.
   intros maxp id eof data Hp Hid Hd.
   unfold max_packet_msg_size, enc_packet.
   pose proof (enc_msg_len_le maxp id eof data Hp Hid Hd) as Hle.
   set (m := enc_msg (Z.of_N id) eof data) in *.
-  set (m0 := enc_msg 1 true (repeat 0%N maxp)) in *.
+  set (m0 := enc_msg 255 true (repeat 0%N maxp)) in *.
   cbn [length]. rewrite !app_length.
   assert (length (varint (N.of_nat (length m))) <= length (varint (N.of_nat (length m0)))).
   { apply varint_mono. lia. }
@@ -108,23 +114,10 @@ Proof.
   cbn [length]. rewrite app_length. rewrite enc_msg_ref_length by assumption. lia.
 Qed.
 
-Lemma packet_fits_refuted_high_id :
-  exists data, length data <= 1024 /\
-    max_packet_msg_size 1024 < length (enc_packet (PktMsg 128 true data)).
-Proof.
-  exists (repeat 0%N 1024). split.
-  - rewrite repeat_length. lia.
-  - vm_compute. lia.
-Qed.
-
-Lemma high_id_rejected : forall cs,
-  recv_packet (max_packet_msg_size 1024) cs (PktMsg 128 true (repeat 0%N 1024)) = inr MTooBig.
-Proof.
-  intros cs. unfold recv_packet.
-  replace (max_packet_msg_size 1024 <? length (enc_packet (PktMsg 128 true (repeat 0%N 1024))))
-    with true by (vm_compute; reflexivity).
-  reflexivity.
-Qed.
+(** the generated constant is the limit computed from the default payload size *)
+Lemma max_size_default_fits :
+  N.of_nat (max_packet_msg_size default_max_packet_msg_payload_size) = max_packet_msg_size_default.
+Proof. vm_compute. reflexivity. Qed.
 
 (* ------------------------------------------------------------------ *)
 (** * 3/4. reassembly: one channel seen alone *)
@@ -482,7 +475,7 @@ Qed.
 Lemma msg_exactly_once : forall maxp descs (msgs : N -> list bytes) stream,
   0 < maxp ->
   NoDup (map ch_id descs) ->
-  (forall d, In d descs -> (ch_id d < 128)%N) ->
+  (forall d, In d descs -> (ch_id d < 256)%N) ->
   (forall d m, In d descs -> In m (msgs (ch_id d)) -> (N.of_nat (length m) <= ch_recvcap d)%N) ->
   known_channels descs stream ->
   (forall d, In d descs -> proj (ch_id d) stream = packets_of (ch_id d) maxp (msgs (ch_id d))) ->
@@ -592,3 +585,479 @@ Lemma empty_msg_alone_sent :
   ok2 = true /\ exhausted = true /\ ps = [PktMsg 2 true []] /\
   map qsize cs' = [0%Z; 0%Z] /\ map can_send cs' = [true; true].
 Proof. vm_compute. repeat split; reflexivity. Qed.
+
+(* ------------------------------------------------------------------ *)
+(** * 6. sender completeness: helpers *)
+
+(* ------------------------------------------------------------------ *)
+(** * list helpers *)
+
+Lemma upd_nth_length : forall A (f : A -> A) l i, length (upd_nth i f l) = length l.
+Proof.
+  intros A f. induction l as [|x t IH]; intros i; destruct i; cbn [upd_nth length];
+    try reflexivity. rewrite IH. reflexivity.
+Qed.
+
+Lemma nth_error_upd_nth_eq : forall A (f : A -> A) l i x,
+  nth_error l i = Some x -> nth_error (upd_nth i f l) i = Some (f x).
+Proof.
+  intros A f. induction l as [|y t IH]; intros i x H; destruct i; cbn [nth_error] in H; try discriminate.
+  - inversion H. reflexivity.
+  - cbn [upd_nth nth_error]. apply IH. assumption.
+Qed.
+
+Lemma nth_error_upd_nth_neq : forall A (f : A -> A) l i j,
+  j <> i -> nth_error (upd_nth i f l) j = nth_error l j.
+Proof.
+  intros A f. induction l as [|y t IH]; intros i j H;
+    destruct i; destruct j; cbn [upd_nth nth_error]; try reflexivity; try lia.
+  apply IH. lia.
+Qed.
+
+Lemma in_upd_nth : forall A (y : A) l i x, In x (upd_nth i (fun _ => y) l) -> x = y \/ In x l.
+Proof.
+  intros A y. induction l as [|z t IH]; intros i x H;
+    [destruct i; destruct H|].
+  destruct i; cbn [upd_nth] in H; destruct H as [<-|H].
+  - left. reflexivity.
+  - right. right. assumption.
+  - right. left. reflexivity.
+  - destruct (IH _ _ H) as [->|H']; [left; reflexivity|right; right; assumption].
+Qed.
+
+Lemma map_upd_nth_same : forall A B (g : A -> B) (y : A) l i x,
+  nth_error l i = Some x -> g x = g y -> map g (upd_nth i (fun _ => y) l) = map g l.
+Proof.
+  intros A B g y. induction l as [|z t IH]; intros i x H Hg; [destruct i; discriminate|].
+  destruct i; cbn [nth_error] in H; cbn [upd_nth map].
+  - inversion H; subst. rewrite Hg. reflexivity.
+  - rewrite (IH _ _ H Hg). reflexivity.
+Qed.
+
+Lemma byte_of_int32_of_N : forall id, (id < 256)%N -> byte_of_int32 (Z.of_N id) = id.
+Proof.
+  intros id H. unfold byte_of_int32. rewrite Z.mod_small by lia. apply N2Z.id.
+Qed.
+
+(* ------------------------------------------------------------------ *)
+(** * one channel *)
+
+Definition cid (c : chan) : N := ch_id (desc c).
+Definition good (c : chan) : Prop := forall m, In m (queue c) -> m <> [].
+Definition idle (c : chan) : Prop := queue c = [] /\ sending c = [].
+(** messages counted in sendQueueSize: the one in progress and the queued ones *)
+Definition owed (c : chan) : Z :=
+  ((match sending c with [] => 0 | _ => 1 end) + Z.of_nat (length (queue c)))%Z.
+Definition bal (c : chan) : Z := (qsize c - owed c)%Z.
+Definition cur (maxp : nat) (id : N) (s : bytes) : list packet :=
+  match s with [] => [] | _ => packetise id maxp s end.
+(** the packets the channel still has to emit *)
+Definition pend (maxp : nat) (c : chan) : list packet :=
+  cur maxp (cid c) (sending c) ++ packets_of (cid c) maxp (queue c).
+Definition isp (c : chan) : chan := snd (is_send_pending c).
+Definition bump (n : Z) (c : chan) : chan :=
+  upd_send c (queue c) (qsize c) (sending c) (recently_sent c + n)%Z.
+
+Definition rel (maxp : nat) (c c1 : chan) (ps : list packet) : Prop :=
+  desc c1 = desc c /\ good c1 /\ bal c1 = bal c /\ pend maxp c = ps ++ pend maxp c1.
+
+Lemma packetise_fuel_indep : forall id maxp, 0 < maxp -> forall f f' m,
+  length m < f -> length m < f' -> packetise_fuel f id maxp m = packetise_fuel f' id maxp m.
+Proof.
+  intros id maxp Hp. induction f as [|f IH]; intros f' m H H'; [lia|].
+  destruct f' as [|f']; [lia|]. cbn [packetise_fuel].
+  destruct (length m <=? maxp) eqn:E; [reflexivity|].
+  apply Nat.leb_gt in E. f_equal. apply IH; rewrite skipn_length; lia.
+Qed.
+
+Lemma isp_rel : forall maxp c, good c ->
+  rel maxp c (isp c) [] /\
+  (fst (is_send_pending c) = true -> sending (isp c) <> []) /\
+  (fst (is_send_pending c) = false -> idle c /\ isp c = c).
+Proof.
+  intros maxp c Hg. unfold isp, is_send_pending.
+  destruct (sending c) as [|b s] eqn:Es.
+  - destruct (queue c) as [|m q] eqn:Eq; cbn [fst snd].
+    + split; [|split].
+      * split; [reflexivity|]. split; [assumption|]. split; reflexivity.
+      * discriminate.
+      * intros _. split; [split; assumption|reflexivity].
+    + assert (Hm : m <> []) by (apply Hg; rewrite Eq; left; reflexivity).
+      split; [|split].
+      * split; [reflexivity|]. split; [|split].
+        -- intros m' Hm'. cbn [upd_send queue] in Hm'. apply Hg. rewrite Eq. right. assumption.
+        -- unfold bal, owed. cbn [upd_send queue sending qsize]. rewrite Es, Eq.
+           destruct m as [|b t]; [congruence|]. cbn [length]. lia.
+        -- unfold pend, cid. cbn [upd_send queue sending desc app]. rewrite Es, Eq.
+           destruct m as [|b t]; [congruence|]. reflexivity.
+      * intros _. cbn [upd_send sending]. assumption.
+      * discriminate.
+  - cbn [fst snd]. split; [|split].
+    + split; [reflexivity|]. split; [assumption|]. split; reflexivity.
+    + intros _. rewrite Es. discriminate.
+    + discriminate.
+Qed.
+
+Lemma cur_ne : forall maxp id s, s <> [] -> cur maxp id s = packetise id maxp s.
+Proof. intros maxp id [|b t] H; [congruence|reflexivity]. Qed.
+
+Lemma owed_ne : forall c, sending c <> [] -> owed c = (1 + Z.of_nat (length (queue c)))%Z.
+Proof. intros c H. unfold owed. destruct (sending c); [congruence|reflexivity]. Qed.
+
+Lemma owed_nil : forall c, sending c = [] -> owed c = Z.of_nat (length (queue c)).
+Proof. intros c H. unfold owed. rewrite H. lia. Qed.
+
+Lemma next_rel : forall maxp c n p c', 0 < maxp -> good c -> sending c <> [] ->
+  next_packet maxp c = (p, c') ->
+  rel maxp c (bump n c') [p] /\ exists eof data, p = PktMsg (Z.of_N (cid c)) eof data.
+Proof.
+  intros maxp c n p c' Hp Hg Hs H. unfold next_packet in H. cbv zeta in H.
+  destruct (length (sending c) <=? maxp) eqn:E; inversion H; subst p c'; clear H.
+  - apply Nat.leb_le in E. rewrite Nat.min_r by assumption. rewrite firstn_all.
+    split; [|eexists; eexists; reflexivity].
+    split; [reflexivity|]. split; [exact Hg|]. split.
+    + unfold bal. rewrite (owed_ne c Hs). rewrite owed_nil by reflexivity.
+      unfold bump. cbn [upd_send queue qsize]. lia.
+    + unfold pend. rewrite (cur_ne _ _ _ Hs). unfold cid, bump.
+      cbn [upd_send queue sending desc cur app]. unfold packetise. cbn [packetise_fuel].
+      apply Nat.leb_le in E. rewrite E. reflexivity.
+  - apply Nat.leb_gt in E. rewrite Nat.min_l by lia.
+    split; [|eexists; eexists; reflexivity].
+    assert (Hsk : length (skipn maxp (sending c)) = length (sending c) - maxp) by apply skipn_length.
+    assert (Hne2 : skipn maxp (sending c) <> []).
+    { intros Heq. rewrite Heq in Hsk. cbn [length] in Hsk. lia. }
+    split; [reflexivity|]. split; [exact Hg|]. split.
+    + unfold bal. rewrite (owed_ne c Hs).
+      rewrite (owed_ne (bump n (upd_send c (queue c) (qsize c) (skipn maxp (sending c)) (recently_sent c))) Hne2).
+      unfold bump. cbn [upd_send queue qsize]. lia.
+    + unfold pend. rewrite (cur_ne _ _ _ Hs). unfold cid, bump.
+      cbn [upd_send queue sending desc]. rewrite (cur_ne _ _ _ Hne2).
+      unfold packetise at 1. cbn [packetise_fuel].
+      apply Nat.leb_gt in E. rewrite E. cbn [app]. f_equal. f_equal.
+      unfold packetise. apply Nat.leb_gt in E.
+      apply packetise_fuel_indep; [assumption|lia|lia].
+Qed.
+
+Lemma rel_trans : forall maxp a b c ps qs,
+  rel maxp a b ps -> rel maxp b c qs -> rel maxp a c (ps ++ qs).
+Proof.
+  intros maxp a b c ps qs (D1 & G1 & B1 & P1) (D2 & G2 & B2 & P2).
+  split; [congruence|]. split; [assumption|]. split; [congruence|].
+  rewrite P1, P2. apply app_assoc.
+Qed.
+
+(* ------------------------------------------------------------------ *)
+(** * selection and one sendPacketMsg *)
+
+Lemma select_loop_spec : forall cs idx best cs1 r, select_loop cs idx best = (cs1, r) ->
+  cs1 = map isp cs /\
+  match r with
+  | Some i => (exists br, best = Some (i, br)) \/
+              (idx <= i /\ exists c, nth_error cs (i - idx) = Some c /\ fst (is_send_pending c) = true)
+  | None => best = None /\ forall c, In c cs -> fst (is_send_pending c) = false
+  end.
+Proof.
+  induction cs as [|c rest IH]; intros idx best cs1 r H; cbn [select_loop] in H.
+  - inversion H; subst. split; [reflexivity|]. destruct best as [[i br]|].
+    + left. eexists. reflexivity.
+    + split; [reflexivity|]. intros c [].
+  - destruct (is_send_pending c) as [pending c'] eqn:Hc. cbv zeta in H.
+    match type of H with context [select_loop rest (S idx) ?b] => remember b as best' eqn:Hb end.
+    destruct (select_loop rest (S idx) best') as [rest' r'] eqn:Hr.
+    inversion H; subst cs1 r. clear H.
+    apply IH in Hr. destruct Hr as [-> Hr]. split.
+    { cbn [map]. change (isp c) with (snd (is_send_pending c)). rewrite Hc. reflexivity. }
+    destruct r' as [i|].
+    + destruct Hr as [[br Hbr]|[Hle (c2 & Hn & Hp2)]].
+      * subst best'. destruct pending.
+        -- destruct best as [[bi bbr]|].
+           ++ match type of Hbr with context [f32_lt ?a ?b] => destruct (f32_lt a b) end.
+              ** inversion Hbr; subst. right. split; [lia|]. exists c.
+                 rewrite Nat.sub_diag. split; [reflexivity|]. rewrite Hc. reflexivity.
+              ** left. eexists. eassumption.
+           ++ inversion Hbr; subst. right. split; [lia|]. exists c.
+              rewrite Nat.sub_diag. split; [reflexivity|]. rewrite Hc. reflexivity.
+        -- left. eexists. eassumption.
+      * right. split; [lia|]. exists c2.
+        replace (i - idx) with (S (i - S idx)) by lia. cbn [nth_error]. split; assumption.
+    + destruct Hr as [Hnone Hall]. subst best'. destruct pending.
+      * destruct best as [[bi bbr]|]; [|discriminate].
+        match type of Hnone with context [f32_lt ?a ?b] => destruct (f32_lt a b) end; discriminate.
+      * split; [assumption|]. intros c2 [<-|Hin]; [rewrite Hc; reflexivity|].
+        apply Hall. assumption.
+Qed.
+
+Lemma send_cases : forall maxp cs cs' op ex, send_packet_msg maxp cs = (cs', op, ex) ->
+  (ex = true /\ op = None /\ cs' = map isp cs /\
+   forall c, In c cs -> fst (is_send_pending c) = false) \/
+  (ex = false /\ exists i ci n p c',
+     nth_error cs i = Some ci /\ fst (is_send_pending ci) = true /\
+     next_packet maxp (isp ci) = (p, c') /\ op = Some p /\
+     cs' = upd_nth i (fun _ => bump n c') (map isp cs)).
+Proof.
+  intros maxp cs cs' op ex H. unfold send_packet_msg in H.
+  destruct (select_loop cs 0 None) as [cs1 sel] eqn:Hs.
+  apply select_loop_spec in Hs. destruct Hs as [-> Hs].
+  destruct sel as [i|].
+  - destruct Hs as [[br Hbr]|[_ (ci & Hi & Hpend)]]; [discriminate|].
+    rewrite Nat.sub_0_r in Hi.
+    rewrite (map_nth_error isp _ _ Hi) in H.
+    destruct (next_packet maxp (isp ci)) as [p c'] eqn:Hn.
+    inversion H; subst. right. split; [reflexivity|].
+    eexists i, ci, _, p, c'. repeat split; eassumption.
+  - destruct Hs as [_ Hall]. inversion H; subst. left. repeat split. assumption.
+Qed.
+
+(* ------------------------------------------------------------------ *)
+(** * draining *)
+
+Fixpoint total (maxp : nat) (cs : list chan) : nat :=
+  match cs with [] => 0 | c :: t => length (pend maxp c) + total maxp t end.
+
+Lemma total_map_isp : forall maxp cs, (forall c, In c cs -> good c) ->
+  total maxp (map isp cs) = total maxp cs.
+Proof.
+  intros maxp. induction cs as [|c t IH]; intros Hg; [reflexivity|].
+  cbn [map total]. rewrite IH by (intros; apply Hg; right; assumption).
+  destruct (isp_rel maxp c (Hg c (or_introl eq_refl))) as [(_ & _ & _ & P) _].
+  rewrite P. reflexivity.
+Qed.
+
+Lemma total_upd : forall maxp y l i x, nth_error l i = Some x ->
+  length (pend maxp x) = S (length (pend maxp y)) ->
+  S (total maxp (upd_nth i (fun _ => y) l)) = total maxp l.
+Proof.
+  intros maxp y. induction l as [|z t IH]; intros i x H Hl; destruct i; cbn [nth_error] in H;
+    try discriminate.
+  - inversion H; subst. cbn [upd_nth total]. lia.
+  - cbn [upd_nth total]. rewrite <- (IH _ _ H Hl). lia.
+Qed.
+
+Lemma idle_pend : forall maxp c, idle c -> pend maxp c = [].
+Proof. intros maxp c [Hq Hs]. unfold pend. rewrite Hq, Hs. reflexivity. Qed.
+
+Lemma drain_spec : forall maxp ds, 0 < maxp ->
+  NoDup (map ch_id ds) -> (forall d, In d ds -> (ch_id d < 256)%N) ->
+  forall fuel cs, map desc cs = ds -> (forall c, In c cs -> good c) -> total maxp cs < fuel ->
+  exists cs' ps, drain fuel maxp cs = (cs', ps, true) /\ length cs' = length cs /\
+    forall j c, nth_error cs j = Some c ->
+      exists c', nth_error cs' j = Some c' /\ desc c' = desc c /\ bal c' = bal c /\ idle c' /\
+                 proj (cid c) ps = pend maxp c.
+Proof.
+  intros maxp ds Hp Hnd H256. induction fuel as [|fuel IH]; intros cs Hds Hgood Htot; [lia|].
+  cbn [drain]. destruct (send_packet_msg maxp cs) as [[cs1 op] ex] eqn:Hs.
+  apply send_cases in Hs.
+  destruct Hs as [(-> & -> & -> & Hnp)|(-> & i & ci & n & p & c' & Hi & Hpend & Hnext & -> & ->)].
+  - exists (map isp cs), []. split; [reflexivity|]. split; [apply map_length|].
+    intros j c Hj. exists (isp c). split; [apply map_nth_error; assumption|].
+    assert (Hin : In c cs) by (eapply nth_error_In; eassumption).
+    destruct (isp_rel maxp c (Hgood c Hin)) as (_ & _ & Hidle).
+    destruct (Hidle (Hnp c Hin)) as [Hid ->].
+    split; [reflexivity|]. split; [reflexivity|]. split; [assumption|].
+    rewrite idle_pend by assumption. reflexivity.
+  - assert (Hini : In ci cs) by (eapply nth_error_In; eassumption).
+    destruct (isp_rel maxp ci (Hgood ci Hini)) as (R1 & Hne & _).
+    specialize (Hne Hpend).
+    assert (Hg1 : good (isp ci)) by (destruct R1 as (_ & G & _); exact G).
+    destruct (next_rel maxp (isp ci) n p c' Hp Hg1 Hne Hnext) as (R2 & eof & data & Hpk).
+    pose proof (rel_trans _ _ _ _ _ _ R1 R2) as R. cbn [app] in R.
+    set (c'' := bump n c') in *.
+    set (cs1 := upd_nth i (fun _ => c'') (map isp cs)).
+    assert (Hi1 : nth_error (map isp cs) i = Some (isp ci)) by (apply map_nth_error; assumption).
+    assert (Hds1 : map desc cs1 = ds).
+    { unfold cs1. rewrite (map_upd_nth_same _ _ desc c'' _ _ _ Hi1).
+      - rewrite map_map. rewrite <- Hds. apply map_ext_in. intros a Ha.
+        destruct (isp_rel maxp a (Hgood a Ha)) as ((D & _) & _). exact D.
+      - destruct R2 as (D & _). symmetry. exact D. }
+    assert (Hgood1 : forall c, In c cs1 -> good c).
+    { intros c Hc. apply in_upd_nth in Hc. destruct Hc as [->|Hc].
+      - destruct R as (_ & G & _). exact G.
+      - apply in_map_iff in Hc. destruct Hc as (a & <- & Ha).
+        destruct (isp_rel maxp a (Hgood a Ha)) as ((_ & G & _) & _). exact G. }
+    assert (Htot1 : total maxp cs1 < fuel).
+    { assert (S (total maxp cs1) = total maxp (map isp cs)).
+      { unfold cs1. apply (total_upd maxp c'' _ _ _ Hi1).
+        destruct R2 as (_ & _ & _ & P). rewrite P. reflexivity. }
+      rewrite total_map_isp in H by assumption. lia. }
+    destruct (IH cs1 Hds1 Hgood1 Htot1) as (cs' & ps' & Hd & Hlen & Hall).
+    rewrite Hd. exists cs', (p :: ps'). split; [reflexivity|]. split.
+    { rewrite Hlen. unfold cs1. rewrite upd_nth_length. apply map_length. }
+    intros j c Hj.
+    assert (Hinc : In c cs) by (eapply nth_error_In; eassumption).
+    destruct (Nat.eq_dec j i) as [->|Hji].
+    + rewrite Hi in Hj. inversion Hj; subst c. clear Hj.
+      assert (H1 : nth_error cs1 i = Some c'').
+      { unfold cs1. apply (nth_error_upd_nth_eq _ (fun _ => c'') _ _ _ Hi1). }
+      destruct (Hall _ _ H1) as (cf & Hcf & Dcf & Bcf & Icf & Pcf).
+      destruct R as (D & G & B & P).
+      exists cf. split; [assumption|]. split; [congruence|]. split; [congruence|].
+      split; [assumption|].
+      assert (Hcid : cid c'' = cid ci) by (unfold cid; rewrite D; reflexivity).
+      assert (Hcid1 : cid (isp ci) = cid ci).
+      { unfold cid. destruct R1 as (D1 & _). rewrite D1. reflexivity. }
+      rewrite Hcid1 in Hpk. rewrite P. rewrite Hpk. rewrite proj_cons_msg.
+      rewrite byte_of_int32_of_N.
+      * rewrite N.eqb_refl. rewrite <- Hpk. cbn [app]. f_equal. rewrite <- Hcid. exact Pcf.
+      * apply H256. rewrite <- Hds. apply in_map. assumption.
+    + assert (H1 : nth_error cs1 j = Some (isp c)).
+      { unfold cs1. rewrite nth_error_upd_nth_neq by assumption. apply map_nth_error. assumption. }
+      destruct (Hall _ _ H1) as (cf & Hcf & Dcf & Bcf & Icf & Pcf).
+      destruct (isp_rel maxp c (Hgood c Hinc)) as ((D & G & B & P) & _).
+      exists cf. split; [assumption|]. split; [congruence|]. split; [congruence|].
+      split; [assumption|].
+      assert (Hcid : cid (isp c) = cid c) by (unfold cid; rewrite D; reflexivity).
+      assert (Hcid1 : cid (isp ci) = cid ci).
+      { unfold cid. destruct R1 as (D1 & _). rewrite D1. reflexivity. }
+      rewrite Hcid1 in Hpk. rewrite P. cbn [app]. rewrite Hpk. rewrite proj_cons_msg.
+      rewrite byte_of_int32_of_N by (apply H256; rewrite <- Hds; apply in_map; assumption).
+      assert (Hneq : (cid ci =? cid c)%N = false).
+      { apply N.eqb_neq. intros Heq. apply Hji.
+        assert (Hl : j < length (map ch_id ds)).
+        { rewrite map_length. rewrite <- Hds. rewrite map_length.
+          apply nth_error_Some. congruence. }
+        apply (proj1 (NoDup_nth_error (map ch_id ds)) Hnd j i Hl).
+        rewrite <- Hds. rewrite map_map.
+        rewrite (map_nth_error (fun x => ch_id (desc x)) _ _ Hj).
+        rewrite (map_nth_error (fun x => ch_id (desc x)) _ _ Hi).
+        unfold cid in Heq. rewrite Heq. reflexivity. }
+      rewrite Hneq. rewrite <- Hcid. exact Pcf.
+Qed.
+
+Lemma total_not_sending : forall maxp cs, (forall c, In c cs -> sending c = []) ->
+  total maxp cs =
+  length (concat (map (fun c => packets_of (ch_id (desc c)) maxp (queue c)) cs)).
+Proof.
+  intros maxp. induction cs as [|c t IH]; intros Hs; [reflexivity|].
+  cbn [total map concat]. rewrite app_length.
+  rewrite IH by (intros; apply Hs; right; assumption).
+  unfold pend. rewrite (Hs c (or_introl eq_refl)). reflexivity.
+Qed.
+
+Lemma map_eq_pointwise : forall A B (g : A -> B) l l', length l' = length l ->
+  (forall j x, nth_error l j = Some x -> exists x', nth_error l' j = Some x' /\ g x' = g x) ->
+  map g l' = map g l.
+Proof.
+  intros A B g. induction l as [|x t IH]; intros l' Hlen Hall.
+  - destruct l'; [reflexivity|discriminate].
+  - destruct l' as [|x' t']; [discriminate|]. cbn [map].
+    destruct (Hall 0 x eq_refl) as (y & Hy & Hg). cbn [nth_error] in Hy. inversion Hy; subst y.
+    rewrite Hg. f_equal. apply IH.
+    + cbn [length] in Hlen. lia.
+    + intros j z Hz. apply (Hall (S j) z). exact Hz.
+Qed.
+
+(** * 6. sender completeness for non-empty messages
+
+    Channels with distinct byte ids, nothing in progress, every queued message non-empty:
+    calling sendPacketMsg until exhaustion (any fuel above the number of packets to emit)
+    does reach exhaustion; whatever the interleaving chosen by the least-ratio selection,
+    the packets written, projected on each channel, are exactly the packets of that channel's
+    queued messages in order; every queue ends empty with nothing in progress, and
+    sendQueueSize has gone down by the number of messages that were queued. *)
+Lemma sender_emits_all : forall maxp cs fuel,
+  0 < maxp ->
+  NoDup (map (fun c => ch_id (desc c)) cs) ->
+  (forall c, In c cs -> (ch_id (desc c) < 256)%N) ->
+  (forall c m, In c cs -> In m (queue c) -> m <> []) ->
+  (forall c, In c cs -> sending c = []) ->
+  length (concat (map (fun c => packets_of (ch_id (desc c)) maxp (queue c)) cs)) < fuel ->
+  exists cs' ps,
+    drain fuel maxp cs = (cs', ps, true) /\
+    map desc cs' = map desc cs /\
+    (forall c', In c' cs' -> queue c' = [] /\ sending c' = []) /\
+    (forall c, In c cs ->
+       proj (ch_id (desc c)) ps = packets_of (ch_id (desc c)) maxp (queue c)) /\
+    (forall j c c', nth_error cs j = Some c -> nth_error cs' j = Some c' ->
+       qsize c' = (qsize c - Z.of_nat (length (queue c)))%Z).
+Proof.
+  intros maxp cs fuel Hp Hnd H256 Hne Hns Hfuel.
+  assert (Hnd' : NoDup (map ch_id (map desc cs))) by (rewrite map_map; exact Hnd).
+  assert (H256' : forall d, In d (map desc cs) -> (ch_id d < 256)%N).
+  { intros d Hd. apply in_map_iff in Hd. destruct Hd as (c & <- & Hc). apply H256. assumption. }
+  assert (Hgood : forall c, In c cs -> good c).
+  { intros c Hc m Hm. eapply Hne; eassumption. }
+  assert (Htot : total maxp cs < fuel) by (rewrite total_not_sending; assumption).
+  destruct (drain_spec maxp (map desc cs) Hp Hnd' H256' fuel cs eq_refl Hgood Htot)
+    as (cs' & ps & Hd & Hlen & Hall).
+  exists cs', ps. split; [assumption|]. split; [|split; [|split]].
+  - apply map_eq_pointwise; [assumption|]. intros j c Hj.
+    destruct (Hall j c Hj) as (c' & Hc' & D & _). exists c'. split; assumption.
+  - intros c' Hin. apply In_nth_error in Hin. destruct Hin as [j Hj].
+    assert (Hlt : j < length cs) by (rewrite <- Hlen; apply nth_error_Some; congruence).
+    destruct (nth_error cs j) as [c|] eqn:Hc; [|apply nth_error_None in Hc; lia].
+    destruct (Hall j c Hc) as (c2 & Hc2 & _ & _ & I & _).
+    rewrite Hj in Hc2. inversion Hc2; subst c2. exact I.
+  - intros c Hin. apply In_nth_error in Hin. destruct Hin as [j Hj].
+    destruct (Hall j c Hj) as (c2 & _ & _ & _ & _ & P).
+    unfold cid in P. rewrite P. unfold pend.
+    rewrite (Hns c (nth_error_In _ _ Hj)). reflexivity.
+  - intros j c c' Hj Hj'. destruct (Hall j c Hj) as (c2 & Hc2 & _ & B & [Iq Is] & _).
+    rewrite Hj' in Hc2. inversion Hc2; subst c2.
+    unfold bal in B. rewrite (owed_nil c' Is) in B. rewrite Iq in B.
+    rewrite (owed_nil c (Hns c (nth_error_In _ _ Hj))) in B. cbn [length] in B. lia.
+Qed.
+
+(* ------------------------------------------------------------------ *)
+(** * the hypotheses of the theorems are satisfiable *)
+
+Definition ex_msgs (id : N) : list bytes :=
+  if (id =? 1)%N then [ex_msg10; [7%N]]
+  else if (id =? 2)%N then [[]; [5; 5; 5; 5; 5]%N] else [].
+
+(** two channels, payload 4, interleaved with each other and with ping/pong *)
+Definition ex_stream : list packet :=
+  [PktPing;
+   PktMsg 1 false [1; 2; 3; 4]%N;
+   PktMsg 2 true [];
+   PktMsg 2 false [5; 5; 5; 5]%N;
+   PktMsg 1 false [5; 6; 7; 8]%N;
+   PktPong;
+   PktMsg 1 true [9; 10]%N;
+   PktMsg 2 true [5%N];
+   PktMsg 1 true [7%N]].
+
+Example msg_exactly_once_example :
+  exists evs,
+    recv_stream (max_packet_msg_size 4) (map new_chan [ex_d1; ex_d2]) ex_stream = (evs, None) /\
+    forall d, In d [ex_d1; ex_d2] -> events_of (ch_id d) evs = ex_msgs (ch_id d).
+Proof.
+  apply msg_exactly_once.
+  - lia.
+  - constructor; [intros [H|[]]; discriminate|]. constructor; [intros []|]. constructor.
+  - intros d [<-|[<-|[]]]; reflexivity.
+  - intros d m [<-|[<-|[]]] Hm; vm_compute in Hm; destruct Hm as [<-|[<-|[]]];
+      vm_compute; discriminate.
+  - intros p c Hin Hc. unfold ex_stream in Hin. cbn [In] in Hin.
+    repeat (destruct Hin as [<-|Hin]; [cbn [pkt_ch] in Hc; try discriminate; inversion Hc;
+      first [ exists ex_d1; split; [left; reflexivity|reflexivity]
+            | exists ex_d2; split; [right; left; reflexivity|reflexivity] ] |]).
+    destruct Hin.
+  - intros d [<-|[<-|[]]]; vm_compute; reflexivity.
+Qed.
+
+Example oversize_example :
+  let d := {| ch_id := 1; ch_prio := 1; ch_sendcap := 10; ch_recvcap := 3 |} in
+  let stream := packets_of 1 2 [[9%N]] ++ [PktPing] ++ packetise 1 2 [1; 2; 3; 4; 5]%N in
+  forall evs r,
+    recv_stream (max_packet_msg_size 2) (map new_chan [d; ex_d2]) stream = (evs, r) ->
+    r <> None /\ exists k, events_of 1 evs = firstn k [[9%N]].
+Proof.
+  intros d stream evs r H.
+  apply (oversize 2 [d; ex_d2] d stream [[9%N]] [1; 2; 3; 4; 5]%N [] evs r).
+  - lia.
+  - constructor; [intros [H0|[]]; discriminate|]. constructor; [intros []|]. constructor.
+  - left. reflexivity.
+  - reflexivity.
+  - reflexivity.
+  - vm_compute. reflexivity.
+  - exact H.
+Qed.
+
+Example sender_emits_all_example :
+  let '(c1, _) := try_send (new_chan ex_d1) ex_msg10 in
+  let '(c2, _) := try_send (new_chan ex_d2) [5; 5; 5; 5; 5]%N in
+  exists cs' ps,
+    drain 10 4 [c1; c2] = (cs', ps, true) /\
+    proj 1 ps = packets_of 1 4 [ex_msg10] /\ proj 2 ps = packets_of 2 4 [[5; 5; 5; 5; 5]%N] /\
+    map qsize cs' = [0%Z; 0%Z].
+Proof. vm_compute. eexists. eexists. repeat split; reflexivity. Qed.
